@@ -504,6 +504,39 @@ fn main() {
         }
     }
 
+    // ---------------------------------------------------------------- slot hammer: FIRST puts of different embedding keys at the same moment
+    // (each allocates a slab slot); the vector encodes the key's write id, so a foreign vector is recognisable;
+    // after quiescence every key must return exactly its own vector next to its own metadata
+    {
+        let st = TensorStore::new();
+        let rounds = args.budget(2500, 12000);
+        let threads = 8usize;
+        let bar = Arc::new(Barrier::new(threads));
+        let hs: Vec<_> = (0..threads).map(|t| {
+            let (s, bar) = (st.clone(), bar.clone());
+            std::thread::spawn(move || {
+                for round in 0..rounds {
+                    let k = Key { cls: 0, idx: 0 };
+                    let v = value(k, (round * 10 + t + 1) as u64);
+                    bar.wait();
+                    s.put(format!("emb:slot:{round}:{t}"), v).unwrap();
+                }
+            })
+        }).collect();
+        for h in hs { h.join().unwrap(); }
+        let mut wrong = vec![];
+        for round in 0..rounds { for t in 0..threads {
+            let want = (round * 10 + t + 1) as u64;
+            let got = st.get(&format!("emb:slot:{round}:{t}")).ok().map(|x| decode(Key { cls: 0, idx: 0 }, &x));
+            if got != Some(want) { wrong.push((format!("emb:slot:{round}:{t}"), want, got)); }
+        } }
+        dist.add("slothammer.keys", (rounds * threads) as u64);
+        hammer.push("slot", &format!("slot-hammer: {} embedding keys first put by {threads} threads at once, {} return something else than their own value", rounds * threads, wrong.len()), true);
+        if let Some((k, want, got)) = wrong.first() {
+            hits.push("foreign-or-mixed-read", &format!("{threads} threads behind a barrier each do the first put of a fresh embedding key ({rounds} rounds); after quiescence get({k}) returns {got:?} instead of write {want} (a value >= 1000000 is tag*1000+vector: its own metadata with ANOTHER key's vector); {} of {} keys are wrong", wrong.len(), rounds * threads), json!({"kind": "slot-hammer", "key": k, "seed": args.seed}));
+        }
+    }
+
     // ---------------------------------------------------------------- first durable writes of NEW embedding keys from many threads at once
     // (every such write allocates an entity id and logs it): after quiescence recovery must return every key's own value
     {
